@@ -215,6 +215,20 @@ func (x *Run) intrinsic(fr *Frame, st *State, fn *ssa.Function, args []Val, site
 			v = *v.Inner
 		}
 		res := ""
+		if v.Clo == nil && v.T != "" {
+			// the value went through a struct field or the heap: closures made on
+			// this path are identified by their (literal) identity
+			vt := simpSelect(v.T)
+			for i := len(st.closures) - 1; i >= 0; i-- {
+				if st.closures[i].T == vt && st.closures[i].Clo != nil {
+					v = st.closures[i]
+					break
+				}
+			}
+			if v.Clo == nil && os.Getenv("GOVC_DEBUG_HANDLER") != "" {
+				fmt.Fprintf(os.Stderr, "HandlerName: unresolved %s\n", v.T)
+			}
+		}
 		for depth := 0; depth < 4 && v.Clo != nil; depth++ {
 			fn := v.Clo.Fn
 			if strings.HasSuffix(fn.Name(), "$bound") {
@@ -294,6 +308,47 @@ func (x *Run) intrinsic(fr *Frame, st *State, fn *ssa.Function, args []Val, site
 			}
 		}
 		return single(st, Val{T: fmt.Sprint(n), S: SInt, Ty: types.Typ[types.Int]}), true
+	case "Exists", "Forall":
+		// Exists(lo, hi, f) / Forall(lo, hi, f): bounded quantifier over the
+		// integers lo <= k < hi; f is a side-effect-free function literal
+		if len(args) != 3 || args[2].Clo == nil {
+			x.unsupported("verif."+name+" needs a function literal", site.Pos())
+			return single(st, x.freshVal(st, "quant", types.Typ[types.Bool])), true
+		}
+		bk := x.d.fresh("bk", SInt)
+		qf := &Frame{fn: args[2].Clo.Fn, env: map[ssa.Value]Val{}, names: map[string]Val{}, parent: fr, mode: ModePure, cut: map[*ssa.BasicBlock]bool{}, unroll: map[*ssa.BasicBlock]int{}, bound: append(append([]string(nil), fr.bound...), bk), depth: fr.depth + 1}
+		sub := st.clone()
+		p0 := len(sub.pc)
+		x.pureDepth++
+		qouts := x.runFrame(qf, []Val{{T: bk, S: SInt, Ty: types.Typ[types.Int]}}, args[2].Clo.Bindings, sub)
+		x.pureDepth--
+		term := "false"
+		first := true
+		for i := len(qouts) - 1; i >= 0; i-- {
+			if qouts[i].panic {
+				continue
+			}
+			var conds []string
+			for _, c := range qouts[i].st.pc[p0:] {
+				if pcKind(c) == 'c' {
+					conds = append(conds, pcPlain(c))
+				}
+			}
+			if first {
+				term = qouts[i].ret.T
+				first = false
+			} else {
+				term = ite(and(conds...), qouts[i].ret.T, term)
+			}
+		}
+		rng := fmt.Sprintf("(and (<= %s %s) (< %s %s))", args[0].T, bk, bk, args[1].T)
+		var qt string
+		if name == "Exists" {
+			qt = fmt.Sprintf("(exists ((%s Int)) (and %s %s))", bk, rng, term)
+		} else {
+			qt = fmt.Sprintf("(forall ((%s Int)) (=> %s %s))", bk, rng, term)
+		}
+		return single(st, Val{T: qt, S: SBool, Ty: types.Typ[types.Bool]}), true
 	case "CallCountWith", "CallCountWith2":
 		s, _ := x.litString(args[0].T)
 		var terms []string
@@ -859,6 +914,9 @@ func (x *Run) oblige(st *State, name, kind, goal string, pos token.Pos, note str
 			}
 		}
 		ob.Result = r
+		if d := os.Getenv("GOVC_TRACE_OBL"); d != "" && strings.Contains(ob.Name, d) {
+			fmt.Fprintf(os.Stderr, "OBL %s -> %s goal=%.200s trace=%v\n", ob.Name, r.Status, ob.Goal, ob.Trace)
+		}
 	}()
 }
 
